@@ -373,7 +373,7 @@ func c43(c *rig.Ctx) {
 	defer srv.Stop()
 	l := newLimiter(c)
 	cnt := newCounters()
-	n := c.Pick(40, 1500)
+	n := c.Pick(40, 1000)
 	forCases(srv, n, 6, nil, l.tooMany, func(i int, x *sqlrig.Session) {
 		r := c.SubRand("c43", i)
 		db := fmt.Sprintf("c43_%d", i)
